@@ -40,6 +40,10 @@ def run_prop(prop, tier):
             # the same behaviours under the optimised build profile (what the code does only inside a debug_assert! is gone there)
             _replay_into(ck, prop, cf, os.path.join(wd, cfg + "_release"), probe=False, config="nightly-release")
             total += n
+            if prop == "C19":
+                # ... and in a process that cannot write to its stderr (a diagnostic printed on the refusal path would panic there)
+                _replay_into(ck, prop, cf, os.path.join(wd, cfg + "_nostderr"), probe=False, stderr_unwritable=True)
+                total += n
     if prop == "C15":
         # blocks of 16 pages and more, and the same behaviours again in a process that pinned itself in RAM
         # (mlockall: every page locked whatever the library does) - only the wipe oracles are active there
@@ -175,8 +179,8 @@ def _trace_validation(ck, prop, wd, runs):
     ck.cov["evaluations"] += len(evs)
 
 
-def _replay_into(ck, prop, cases, outprefix, probe, mode=None, config="nightly"):
-    rep = replay(cases, outprefix, nproc=min(14, NCPU), probe=probe, mode=mode, config=config)
+def _replay_into(ck, prop, cases, outprefix, probe, mode=None, config="nightly", stderr_unwritable=False):
+    rep = replay(cases, outprefix, nproc=min(14, NCPU), probe=probe, mode=mode, config=config, stderr_unwritable=stderr_unwritable)
     by = split_failures(rep)
     mine = list(by[prop])
     if prop == "C19":
